@@ -22,6 +22,12 @@ CHECKS = {
  "C07": dict(cat="exploration", tech="runtime monitor: ground truth from least-fixpoint evaluator, reported cycle validated edge by edge; enumerated small digraphs",
              text="Builds of keys whose evaluation requires a cycle must fail with one cycle report whose every edge is a real wait-for relation observed by the monitor; acyclic builds must neither report nor stall; random cyclic programs x histories x 3 schedules plus all digraphs on 3 keys ({absent,static,dynamic}) and 4 keys (static) in thorough.",
              note="Single-use edges excluded (the engine deliberately forgets them); ForceBuild cycle breaking opted in for 1/4 of cases.", ref="4/C07"),
+ "C04": dict(cat="fault_enumeration", tech="kill injection at database system calls via strace (signal=KILL on entry to the N-th call), then invariant checks over the file and monitored continuation builds",
+             text="One engine build per process; for each build of each history the process is killed before the N-th system call touching the SQLite file or its journal (quick: calls around fdatasync/unlink/lock transitions + random; thorough: every N), then integrity_check, I1 epoch order, I2 dependency ids resolve, I3 every stored (key,value,deps) is the pre-build row or an execution logged by the killed run, I4 three continuation builds under the C01/C02 monitors.",
+             note="Process kill, not power loss; kills land between system calls; strace -P selects the calls; sqlite3 trusted.", ref="4/C04"),
+ "C20": dict(cat="exploration", tech="differential runtime monitor: same generated histories through core.h and through the C++ engine interface, traces compared event by event",
+             text="Each history runs once through BuildEngine/Rule/Task and once only through llb_buildengine_*/llb_task_*; per-build traces on the shared vocabulary must be identical, both runs are monitored (M-proto/M-value/M-justify) and the DB written via the C interface is read back independently.",
+             note="Single-use requests, prior values, run reasons and rule signatures do not exist in the C interface; db.h and Swift bindings not covered.", ref="4/C20"),
  "C13": dict(cat="exploration", tech="runtime oracle over real file-system observations (ASan/UBSan build) + valgrind memcheck subset",
              text="Generated (kind, size, mtime) x transition cases on a real ext4 directory, observed through the three FileSystem modes; oracle computed from raw stat/lstat and byte comparison; held on the cases listed in the evidence, nothing more.",
              note="Trusts the kernel's stat(); explicit utimensat mtimes; directories are only compared empty.", ref="4/C13"),
